@@ -98,5 +98,12 @@ def run(ctx):
                 "published, an empty list is not, the node-count delta is moved out, the allocation mark is untouched.")
     nl = efreelist.check_return_links(ctx, F)
     ctx.floor("E-FREELIST.link", "interpreted hand-back situations", nl, 5)
+    ctx.explain("E-LIN.rcguard: try_remove_node (both managers) reaches the removal from the unique table only with previous "
+                "count 2, prepared manager and re-read count 1. E-CANON.ptrsplit: in the pointer-based manager terminal "
+                "operations lie on the !is_inner() edge and inner-node operations on the is_inner() edge.")
+    nrg = elin.check_removal_guards(ctx, F)
+    ctx.floor("E-LIN.rcguard", "try_remove_node bodies", nrg, 2)
+    nps = ecanon.check_ptr_split(ctx, F)
+    ctx.floor("E-CANON.ptrsplit", "is_inner() branches of the pointer-based manager", nps, 6)
     ctx.not_decided = ("exactness of counts over histories; the unsafe internals of the managers; "
                        "capacity restoration after gc")
